@@ -65,15 +65,16 @@ Force(s) == /\ Step /\ Produce(s)
             /\ Rec("force", [s |-> s], last'[s])
 \* C02 on generators: the slot's generator object is assigned to a constant parameter of the same
 \* instance; the assignment is rejected and must not touch the generator's cached state
-Reject(s) == /\ Step /\ UNCHANGED <<time, stack, last, saved, ptime, cnt>>
+Reject(s) == /\ Step /\ InstOf[s] # 0 /\ UNCHANGED <<time, stack, last, saved, ptime, cnt>>
              /\ Rec("reject", [s |-> s], None)
 \* _state_push / _state_pop act on all dynamic parameters of the instance
 Mates(s) == {x \in Slots : InstOf[x] = InstOf[s]}
-Push(s) == /\ Step /\ Len(saved[s]) < 2
+\* (InstOf[s] = 0: the slot is the class-level default generator itself, read and inspected through the class)
+Push(s) == /\ Step /\ InstOf[s] # 0 /\ Len(saved[s]) < 2
            /\ saved' = [x \in Slots |-> IF x \in Mates(s) THEN Append(saved[x], <<last[x], ptime[x]>>) ELSE saved[x]]
            /\ UNCHANGED <<time, stack, last, ptime, cnt>>
            /\ Rec("push", [s |-> s], None)
-Pop(s) == /\ Step /\ saved[s] # <<>>
+Pop(s) == /\ Step /\ InstOf[s] # 0 /\ saved[s] # <<>>
           /\ last' = [x \in Slots |-> IF x \in Mates(s) THEN saved[x][Len(saved[x])][1] ELSE last[x]]
           /\ ptime' = [x \in Slots |-> IF x \in Mates(s) THEN saved[x][Len(saved[x])][2] ELSE ptime[x]]
           /\ saved' = [x \in Slots |-> IF x \in Mates(s) THEN SubSeq(saved[x], 1, Len(saved[x]) - 1) ELSE saved[x]]
